@@ -277,18 +277,123 @@ def stratum(c, r):
     o = r.get("q", {})
     return pos + ":" + ("ok" if "ok" in o else o.get("exc", "?"))
 
+# ---------------------------------------------------------------------------------------------
+# histories: the same pipeline / transformation / backend objects used for several conversions
+import copy
+H_PIPES = [p for p in PIPELINES if all(not (d["inc"] is not None and d["exc"] is not None) for d in p)]
+H_VALUES_S = ["a%x%", "%x%", "%x%b%y%", "k%y%", "%z%*", "%x%%x%", "lit", "\\%x%", "p%x%q%z%"]
+H_VALUES_R = ["a%x%", "%x%", "%x%.%y%", "b.*%z%", "lit"]
+H_MODS_S = [["expand"], ["expand", "contains"], ["startswith", "expand"], ["expand"]]
+H_NEWVALS = [["7"], ["8", "9"], "s", 5, ["w*", "v"], [], None, ["a&b", 1.5], ["n"], [None], ["%y%"]]
+
+def cur_vars(vars_, op):
+    """the variable table after the operation (harness glue; mirrors impl/c17.py _Hist.op)"""
+    v = copy.deepcopy(vars_)
+    k = op[0]
+    if k == "set": v[op[1]] = copy.deepcopy(op[2])
+    elif k == "del": v.pop(op[1], None)
+    elif k == "append":
+        if isinstance(v.get(op[1]), list): v[op[1]].append(op[2])
+    elif k == "override": v.update(copy.deepcopy(op[1]))
+    return v
+
+def rand_op(rng):
+    n = rng.choice(["x", "x", "x", "y", "z"])
+    k = rng.choice(["none", "set", "set", "set", "del", "del", "append", "override", "override"])
+    if k == "none": return ["none"]
+    if k == "set": return ["set", n, rng.choice(H_NEWVALS)]
+    if k == "del": return ["del", n]
+    if k == "append": return ["append", n, rng.choice(["4", 6, "t*"])]
+    return ["override", {n: rng.choice(H_NEWVALS[:5] + H_NEWVALS[8:9])} if rng.random() < 0.8 else {"x": ["o1", "o2"], "y": "o3"}]
+
+def rand_step(rng, op=None, pos=None):
+    pos = pos or rng.choice(["f", "f", "k", "r"])
+    if pos == "r":
+        mods, values = ["re", "expand"], rng.sample(H_VALUES_R, rng.choice([1, 1, 2]))
+    else:
+        mods, values = rng.choice(H_MODS_S), rng.sample(H_VALUES_S, rng.choice([1, 1, 2]))
+    return {"op": op or rand_op(rng), "field": pos != "k" if pos != "r" else rng.random() < 0.7, "mods": mods, "values": values}
+
+def gen_history(tier, rng):
+    out = []
+    quick = tier == "quick"
+    base = {"x": ["1", "2"], "y": ["u*", "v"], "z": "w"}
+    # 1. structured: convert, change one thing, convert the same value again (and once more after undoing)
+    ops = [["set", "x", ["7"]], ["set", "x", ["8", "9", "1"]], ["set", "x", "s"], ["set", "x", []], ["set", "x", [None]],
+           ["del", "x"], ["append", "x", "4"], ["override", {"x": ["o1", "o2"]}], ["override", {"y": "o3"}],
+           ["set", "y", ["n"]], ["del", "z"], ["none"]]
+    for p in H_PIPES:
+        for op in ops:
+            for pos, mods, val in (("f", ["expand"], "a%x%b%y%"), ("k", ["expand"], "%x%"), ("r", ["re", "expand"], "a%x%.%z%"),
+                                   ("f", ["expand", "contains"], "%x%")):
+                for mode in ("convert", "apply"):
+                    if quick and rng.random() < 0.5: continue
+                    st = lambda o, v=val: {"op": o, "field": pos != "k", "mods": mods, "values": [v]}
+                    steps = [st(["none"]), st(op), st(["set", "x", ["1", "2"]]), st(["del", "x"]), st(["set", "x", ["z9"]], "q%x%")]
+                    out.append({"items": p, "vars": copy.deepcopy(base), "mode": mode, "steps": steps})
+    # 2. variable added later; different rules with the same placeholder names; positions mixed
+    for p in H_PIPES:
+        for mode in ("convert", "apply"):
+            steps = [{"op": ["none"], "field": True, "mods": ["expand"], "values": ["a%x%"]},
+                     {"op": ["set", "x", ["1"]], "field": True, "mods": ["expand"], "values": ["a%x%"]},
+                     {"op": ["set", "x", ["2", "3"]], "field": False, "mods": ["expand"], "values": ["%x%", "k%x%"]},
+                     {"op": ["set", "y", ["4"]], "field": True, "mods": ["re", "expand"], "values": ["%x%%y%"]},
+                     {"op": ["del", "y"], "field": True, "mods": ["re", "expand"], "values": ["%x%%y%"]}]
+            out.append({"items": p, "vars": {}, "mode": mode, "steps": steps})
+    # 3. random histories
+    for _ in range(250 if quick else 6000):
+        items = rng.choice(H_PIPES) if rng.random() < 0.6 else [d for d in (rand_item(rng) for _ in range(rng.choice([1, 1, 2, 3])))
+                                                                  if not (d["inc"] is not None and d["exc"] is not None)]
+        vs = copy.deepcopy(rng.choice(VARSETS)) if rng.random() < 0.6 else rand_vars(rng)
+        steps = [rand_step(rng, op=["none"])] + [rand_step(rng) for _ in range(rng.randint(1, 4))]
+        out.append({"items": items, "vars": vs, "mode": rng.choice(["convert", "convert", "apply"]), "steps": steps})
+    return out
+
+def history_to_coq(c, r):
+    if "steps" not in r: return None
+    terms, v = [], c["vars"]
+    for st, sr in zip(c["steps"], r["steps"]):
+        v = cur_vars(v, st["op"])
+        t = to_coq({"field": st["field"], "mods": st["mods"], "values": st["values"], "items": c["items"], "vars": v}, sr)
+        if t is None: return None
+        terms.append(t)
+    return clist(terms)
+
+def history_oracle(c, r):
+    for sr in r.get("steps", []):
+        m = py_oracle(c, sr)
+        if m: return m
+    return None
+
+def history_mutate(c, rng):
+    out = []
+    for k in range(1, len(c["steps"])):
+        out.append(dict(c, steps=c["steps"][:k] + c["steps"][k + 1:]))
+        out.append(dict(c, steps=c["steps"][:k + 1]))
+    out.append(dict(c, mode="apply" if c["mode"] == "convert" else "convert"))
+    return out
+
+def history_stratum(c, r):
+    return c["mode"] + ":" + "+".join(sorted({st["op"][0] for st in c["steps"]}))
+
 REQ = ["Base.Chars", "Base.Outcome", "Model.SString", "Model.Placeholder", "Spec.Items", "Spec.Expand", "Run.C17run"]
 PROPERTY = Property(
     pid="C17", props_file="Props/C17.v",
     suites=[Suite("expand", gen, "run", REQ, "judge_expand", to_coq, known=known, mutate=mutate,
-                  py_oracle=py_oracle, stratum=stratum, shard=250)],
+                  py_oracle=py_oracle, stratum=stratum, shard=250),
+            Suite("history", gen_history, "run_history", REQ, "judge_history", history_to_coq, mutate=history_mutate,
+                  py_oracle=history_oracle, stratum=history_stratum, shard=120)],
     rule="one detection item (field / keyword / regular expression; expand with contains|startswith|endswith in both orders, all) with 1..3 values "
          "built from literal, wildcard, escaped-wildcard, escaped-percent, lone-percent and %x% %y% %z% blocks: exhaustive up to 2 (quick) / 3 (thorough, sampled at 3) "
          "blocks, hostile list, random up to 6 blocks; x 22 fixed pipelines (value-list / wildcard / query-expression items with include / exclude, "
          "both lists, empty lists, every order) and random pipelines of 0..3 items; x variable tables of 0..3 values (strings incl. wildcards, "
          "escapes, %y% text; int, float, bool; None, list, dict; scalar; missing). Through ProcessingPipeline.from_dict, SigmaRule.from_dict and "
          "Backend.convert_rule of a TextQueryTestBackend subclass with decodable templates and of the stock TextQueryTestBackend. "
-         "non-trivial = some source value contains a placeholder; distinct by case hash",
+         "non-trivial = some source value contains a placeholder; distinct by case hash. Suite history: ONE pipeline object (one instance of every "
+         "transformation) and ONE backend used for 2..5 conversions (Backend.convert, or ProcessingPipeline.apply on the same object), between which the "
+         "variable table is changed (value reassigned, variable deleted, added, list appended in place, overriding pipeline appended with +), with different "
+         "rules using the same placeholder names in field / keyword / regular-expression position; every step is judged by the unchanged single-conversion "
+         "model and specification against the table current at that step (conversion has no memory)",
     assumptions=["re.compile acceptance is modelled by Model/PyRegex.v for the generated fragment (no groups, classes, braces) and validated by the correspondence only",
                  "the pattern (?<!\\\\)%([^%]+)% of insert_placeholders is modelled by a one-pass scanner (Model.Placeholder.ph_go) and, independently, by the "
                  "look-ahead reader Spec.Expand.xread; their agreement is checked by the correspondence, not proved",
